@@ -79,6 +79,14 @@ theorem head_sym (hc : TableConsistent T L) (uni : Bool) : ∀ t : Skel, t.WF T 
     intro _ s r h
     simp only [printSkel, List.cons.injEq, Tok.sym.injEq] at h
     exact Or.inr (Or.inr h.1.symm)
+  | collect x body _ =>
+    intro _ s r h
+    simp only [printSkel, List.cons.injEq, Tok.sym.injEq] at h
+    exact Or.inr (Or.inr h.1.symm)
+  | collectT x ty body _ =>
+    intro _ s r h
+    simp only [printSkel, List.cons.injEq, Tok.sym.injEq] at h
+    exact Or.inr (Or.inr h.1.symm)
 
 theorem hypsMore_len (uni : Bool) (hs : List Skel) : hs.length ≤ (printHypsMore T L Q uni hs).length := by
   induction hs with
